@@ -53,6 +53,20 @@ theorem C09_member (decode : Bytes → Option Bytes) (input : Bytes)
   have := (gz_transport cap hc ops hops).2.2.2 hend
   rw [this.2]; exact hcontract
 
+/-- Under the encoder's contract for sync flushes — a streaming decoder `sdecode` fed the
+encoder's output up to and including a sync flush reproduces the input written so far — the
+frames available to the consumer after `flush` returns (delivered or queued, no further
+producer action needed) decode to every byte written before that flush. (K2 is flate2 breaking
+exactly this contract when more than 32 KiB of output is pending.) -/
+theorem C09_flush_decodable (sdecode : Bytes → Bytes) (inputSoFar : Bytes)
+    (cap : Nat) (hc : 0 < cap) (ops : List AnyOp) (hops : ∀ op ∈ ops, op.gzPlain) (pushed : Bytes) :
+    let h := (Hist.init cap .gz).run (ops ++ [.p (.gzFlush pushed)])
+    h.sys.bw = .gz → sdecode h.accepted = inputSoFar →
+    sdecode (h.delivered ++ h.sys.inflight) = inputSoFar := by
+  intro h hbw hc'
+  have := gz_flush_publishes cap hc ops hops pushed hbw
+  rw [this]; exact hc'
+
 /-- Non-vacuity: chunk size 1 (every byte of the encoder's output in its own frame). -/
 example :
     let h := (Hist.init 1 .gz).run
